@@ -1,8 +1,27 @@
+//! Harness over the SQLite store and the ingest step built on it.
+//!
+//! C01 (ingest-level part) tampered / arbitrary operations vs a reference validator + table dumps,
+//! C03 chain invariants over delivery histories, C05 pruned prefixes never come back,
+//! C08 `LogStore` command machine vs model (+ valgrind), C09 operation/topic/cursor stores vs
+//! abstract collections (+ valgrind).
+
+mod c01;
+mod c08;
+mod c09;
+mod common;
+mod hist;
+mod par;
+
 use vh_common::Args;
 
 fn main() {
     let args = Args::parse();
     match args.prop.as_str() {
-        other => panic!("vh-store does not serve {other} yet"),
+        "C01" => c01::run(&args),
+        "C03" => hist::run(&args, hist::Mode::C03),
+        "C05" => hist::run(&args, hist::Mode::C05),
+        "C08" => c08::run(&args),
+        "C09" => c09::run(&args),
+        other => panic!("vh-store does not serve {other}"),
     }
 }
